@@ -338,7 +338,7 @@ def finish(ctx):
 
 # ------------------------------------------------------------------ table variants
 def _variants(ctx):
-    v = ['public', 'private']
+    v = ['public', 'private', 'private_touched_early']
     if ctx.thorough():
         v += ['public_loaded', 'private_late', 'bare']
     return v
@@ -364,6 +364,22 @@ def _table(variant):
     from periodictable import mass, density
     if variant == 'private':
         T = core.PeriodicTable('c08_private_%d' % ctx.shard)
+        mass.init(T)
+    elif variant == 'private_touched_early':
+        # a private table used (lookups, iteration, isotope lists, pickles) BEFORE its isotopes are
+        # loaded: D and T exist from construction, so this is legal use; then mass.init and the sweep
+        import pickle
+        T = core.PeriodicTable('c08_early_%d' % ctx.shard)
+        for el in T:
+            list(el)
+            el.isotopes
+        T.isotope('2-H'), T.isotope('D'), T.H[3], T.D.ion[1], T.Fe.ion[2], list(T)
+        pickle.loads(pickle.dumps([T.D, T.T, T.H, T.Fe.ion[3]]))
+        for sym in ('H', 'Fe', 'U'):
+            try:
+                T.isotope('1-' + sym)
+            except ValueError:
+                pass
         mass.init(T)
     elif variant == 'public_loaded':
         _force_lazy_loaders()
